@@ -202,7 +202,7 @@ pub proof fn lemma_kick_wf(o: VolatileState, n: VolatileState, c: String, gone: 
 }
 
 impl MainState {
-//@fn state/channel_cmds.rs MainState::process_kick unit=kick props=C09,C05,C04 rules=R1,R2,R6,R23
+//@fn state/channel_cmds.rs MainState::process_kick unit=kick props=C09,C05,C04,C16 rules=R1,R2,R6,R23
 //@attr #[verifier::loop_isolation(false)]
 //@spec
         requires
@@ -217,7 +217,7 @@ impl MainState {
             counters_wf(*final(state)), // @prop C19
             senders_distinct(*final(state)), // @prop C02,C01
             conn_ok(*final(conn_state), *final(state)), // @prop C09
-            kick_post(*old(state), *final(state), sk(channel), // @prop C09,C04
+            kick_post(*old(state), *final(state), sk(channel), // @prop C09,C04,C16
                 |v: String| kicked_p(*old(state), my_nick(*old(conn_state)), sk(channel), kick_users@, v)),
             // every kick is announced: to the members that remain and to the victim, one copy each, nobody else
             r is Ok ==> exists|victims: Seq<Seq<char>>, logs: Seq<Seq<(int, Seq<char>)>>|
